@@ -353,7 +353,12 @@ func maxValue(char *gen.CharacteristicMetadata) interface{} {
 }
 
 func stepValue(char *gen.CharacteristicMetadata) interface{} {
-	return constraintWithKey(char, "StepValue")
+	if value := constraintWithKey(char, "StepValue"); value != nil {
+		return value
+	}
+
+	// The metadata spells the key of "Filter Life Level" in lower case
+	return constraintWithKey(char, "stepValue")
 }
 
 func constDecls(char *gen.CharacteristicMetadata) []ConstDecl {
